@@ -561,8 +561,8 @@ func (g *docGen) faultDocs(o *amObject, base amDoc, limit int) []amDoc {
 // --- JSON comparison ---------------------------------------------------------------------
 
 type jsonCmpOpts struct {
-	NullEqualsAbsent bool // an object member holding null ≡ absent member
-	NilEqualsEmpty   bool // null ≡ [] ≡ {} for collections
+	NullEqualsAbsent  bool // an object member holding null ≡ absent member
+	NilEqualsEmpty    bool // null ≡ [] ≡ {} for collections
 	AbsentEqualsEmpty bool // an absent member ≡ a member holding an empty (or null) collection
 }
 
